@@ -11,7 +11,7 @@ pub assume_specification[ usize::div_ceil ](lhs: usize, rhs: usize) -> (r: usize
     requires rhs != 0,
     ensures r as int == (lhs as int + rhs as int - 1) / (rhs as int);
 
-//@@ trusted link/mod.rs: how the attach of a resuming link is cut down until it fits a frame. `Link::as_attach_inner` (a struct literal of fourteen cloned fields) is a stand-in: the attach it builds carries the unsettled entries `get_unsettled_map(is_reattaching, partial_unsettled)` returns and is marked incomplete exactly when partial_unsettled > 1 -- restated from its body, not extracted
+//@@ trusted link/mod.rs: how the attach of a resuming link is cut down until it fits a frame. `Link::as_attach_inner` is extracted: every field of the attach against `attach_spec` (the link's own name, the handle given, role, settle modes, terminus, capabilities and the flow state's initial delivery-count and properties); `Box` erased (R8), the `Into` conversions of handle / target / capabilities are named stand-ins (R16)
 //@@ trusted the iterator chains `map.iter().map(|(k, v)| (k.clone(), v.as_delivery_state().clone())).collect()` and `(0..len).zip(map.iter()).map(..).collect()` are stand-ins: the first `min(len, |map|)` entries of the map in its own order, each tag with its delivery state (std: zip stops with the shorter side; indexmap iterates in insertion order)
 //@@ trusted the serialization of the attach into the scratch buffer is a stand-in that appends asz(link, k, incomplete) octets: an uninterpreted size that depends on the link and on how many unsettled entries the attach carries. ASSUMED (precondition of as_maybe_incomplete_attach): the attach WITHOUT unsettled entries fits the frame size given
 //@@ trusted machine integers: usize is 64 bits; an unsettled map holds fewer than 2^62 entries
@@ -22,7 +22,7 @@ macro_rules! opaque {
         pub struct $n { _p: u8 }
     )* } }
 }
-opaque!(DeliveryTag, DeliveryStateS, MsgS, OutputHandle, SerErr);
+opaque!(DeliveryTag, DeliveryStateS, MsgS, OutputHandle, SerErr, StringS, Handle, Role, SndMode, RcvMode, SourceS, TargetS, TargetArchetypeS, CapsS, CapsOut, Fields);
 impl Clone for OutputHandle { #[verifier::external_body] fn clone(&self) -> (r: Self) ensures r == *self { unimplemented!() } }
 pub enum SendAttachErrorKind { IllegalState, Other }
 pub trait ErrInto<T>: Sized { spec fn conv(self) -> T; fn err_into(self) -> (r: T) ensures r == self.conv(); }
@@ -46,7 +46,34 @@ pub open spec fn listed(m: Seq<(DeliveryTag, MsgS)>, k: int) -> Seq<(DeliveryTag
 #[verifier::external_body]
 pub fn collect_first(map: &UnsettledMap, len: usize) -> (r: OutMap) ensures r.entries@ == listed(map@, len as int) { unimplemented!() }
 
-pub struct AttachS { pub k: Ghost<int>, pub incomplete: bool, pub of: Ghost<int> }
+macro_rules! cloneable { ($($n:ident),*) => { verus!{ $( impl Clone for $n { #[verifier::external_body] fn clone(&self) -> (r: Self) ensures r == *self { unimplemented!() } } )* } } }
+cloneable!(StringS, SndMode, RcvMode, SourceS, TargetS, CapsS);
+pub uninterp spec fn handle_of(h: OutputHandle) -> Handle;
+#[verifier::external_body]
+pub fn handle_into(h: OutputHandle) -> (r: Handle) ensures r == handle_of(h) { unimplemented!() }
+pub uninterp spec fn archetype_of(t: TargetS) -> TargetArchetypeS;
+#[verifier::external_body]
+pub fn target_into(t: TargetS) -> (r: TargetArchetypeS) ensures r == archetype_of(t) { unimplemented!() }
+pub uninterp spec fn caps_of(c: CapsS) -> CapsOut;
+#[verifier::external_body]
+pub fn caps_into(c: CapsS) -> (r: CapsOut) ensures r == caps_of(c) { unimplemented!() }
+/// the link's flow state: what the attach reads from it
+pub struct FlowStateS { pub idc: Ghost<u32>, pub props: Ghost<Option<Fields>> }
+impl FlowStateS {
+    #[verifier::external_body]
+    pub fn initial_delivery_count(&self) -> (r: u32) ensures r == self.idc@ { unimplemented!() }
+    #[verifier::external_body]
+    pub fn properties(&self) -> (r: Option<Fields>) ensures r == self.props@ { unimplemented!() }
+}
+/// the attach performative (fe2o3-amqp-types performatives/attach.rs: field order is unit WIRELAYOUT's), Box erased (R8)
+pub struct Attach {
+    pub name: StringS, pub handle: Handle, pub role: Role, pub snd_settle_mode: SndMode, pub rcv_settle_mode: RcvMode, pub source: Option<SourceS>, pub target: Option<TargetArchetypeS>,
+    pub unsettled: Option<OutMap>, pub incomplete_unsettled: bool, pub initial_delivery_count: Option<u32>, pub max_message_size: Option<u64>,
+    pub offered_capabilities: Option<CapsOut>, pub desired_capabilities: Option<CapsOut>, pub properties: Option<Fields>,
+}
+pub type AttachS = Attach;
+/// how many unsettled entries an attach lists
+pub open spec fn k_of(a: Attach) -> int { match a.unsettled { Some(m) => m.entries@.len() as int, None => 0 } }
 pub struct BytesMutS { pub n: Ghost<nat> }
 impl BytesMutS {
     pub fn new() -> (r: Self) ensures r.n@ == 0 { BytesMutS { n: Ghost(0) } }
@@ -54,18 +81,36 @@ impl BytesMutS {
     pub fn len(&self) -> (r: usize) ensures r == self.n@ { unimplemented!() }
     pub fn clear(&mut self) ensures final(self).n@ == 0 { self.n = Ghost(0); }
 }
-pub struct Link { pub unsettled: Option<UnsettledMap>, pub id: Ghost<int> }
+pub struct Link { pub unsettled: Option<UnsettledMap>, pub name: StringS, pub snd_settle_mode: SndMode, pub rcv_settle_mode: RcvMode, pub source: Option<SourceS>, pub target: Option<TargetS>,
+    pub max_message_size: u64, pub flow_state: FlowStateS, pub offered_capabilities: Option<CapsS>, pub desired_capabilities: Option<CapsS>, pub role: Role }
+impl Link { #[verifier::external_body] pub fn role_s(&self) -> (r: Role) ensures r == self.role { unimplemented!() } }
+/// THE attach of link `l` under handle `h` listing `u`: every field from the link's own configuration and state (AMQP 1.0 part 2, 2.7.3)
+pub open spec fn attach_spec(l: Link, h: OutputHandle, u: Option<OutMap>, incomplete: bool) -> Attach {
+    Attach {
+        name: l.name, handle: handle_of(h), role: l.role, snd_settle_mode: l.snd_settle_mode, rcv_settle_mode: l.rcv_settle_mode, source: l.source,
+        target: match l.target { Some(t) => Some(archetype_of(t)), None => None },
+        unsettled: u, incomplete_unsettled: incomplete,
+        initial_delivery_count: Some(l.flow_state.idc@),
+        max_message_size: if l.max_message_size == 0 { None } else { Some(l.max_message_size) },
+        offered_capabilities: match l.offered_capabilities { Some(c) => Some(caps_of(c)), None => None },
+        desired_capabilities: match l.desired_capabilities { Some(c) => Some(caps_of(c)), None => None },
+        properties: l.flow_state.props@,
+    }
+}
+/// what get_unsettled_map returns, as a function of the link
+pub open spec fn unsettled_spec(l: Link, is_reattaching: bool, partial: usize) -> Option<OutMap> {
+    if kof(l, is_reattaching, partial) == 0 { None } else { Some(OutMap { entries: Ghost(listed(l.unsettled->Some_0@, kof(l, is_reattaching, partial))) }) }
+}
 /// the number of entries the link's attach lists when it is asked for "one in `partial`" of them
 pub open spec fn kof(l: Link, is_reattaching: bool, partial: usize) -> int {
     if is_reattaching || l.unsettled is None { 0 } else if partial <= 1 { l.unsettled->Some_0@.len() as int } else { l.unsettled->Some_0@.len() as int / partial as int }
 }
-/// octets of the encoded attach of link `l` listing its first k unsettled entries
-pub uninterp spec fn asz(l: Link, k: int, incomplete: bool) -> nat;
+/// octets of the encoded attach (to_vec: units SERENTRY / WIRELAYOUT)
+pub uninterp spec fn asz(a: Attach) -> nat;
 /// `let mut serializer = Serializer::from((&mut buf).writer()); attach.serialize(&mut serializer)`
 #[verifier::external_body]
 pub fn serialize_attach(l: &Link, attach: &AttachS, buf: &mut BytesMutS) -> (r: Result<(), SerErr>)
-    requires attach.of@ == l.id@,
-    ensures r is Ok ==> final(buf).n@ == old(buf).n@ + asz(*l, attach.k@, attach.incomplete),
+    ensures r is Ok ==> final(buf).n@ == old(buf).n@ + asz(*attach),
 { unimplemented!() }
 
 impl Link {
@@ -86,6 +131,7 @@ impl Link {
     }
 //@@ spec
     ensures
+        kof(*self, is_reattaching, partial_unsettled) > 0 ==> r == unsettled_spec(*self, is_reattaching, partial_unsettled),
         is_reattaching ==> r is None,       // [C13.reattach.unsettled-map-is-null] when a link is re-attached (as opposed to resumed) its attach lists no unsettled deliveries (AMQP 1.0 part 2, 2.6.3)
         r is Some ==> r->Some_0.entries@ == listed(self.unsettled->Some_0@, kof(*self, is_reattaching, partial_unsettled)),       // [C02.resume.unsettled-listed-with-their-states] a resuming attach lists the link's unsettled deliveries in their own order, each tag with the state the link holds for it -- all of them, or (incomplete-unsettled) the first 1/partial of them
         r is Some ==> r->Some_0.entries@.len() == kof(*self, is_reattaching, partial_unsettled),
@@ -93,16 +139,30 @@ impl Link {
         partial_unsettled >= 2 && r is Some ==> r->Some_0.entries@.len() * partial_unsettled <= self.unsettled->Some_0@.len(),       // [C15.attach.partial-map-shrinks-to-nothing] asked for one in `partial`, the attach lists at most total / partial entries: once `partial` exceeds the number of unsettled deliveries it lists none -- what the sizing loop below needs in order to end, however large the states are that the peer made the link hold
 //@@ end
 
-    /// the attach of this link with the unsettled entries get_unsettled_map(is_reattaching, partial_unsettled) returns (stand-in: see the unit's notes)
-    #[verifier::external_body]
-    pub fn as_attach_inner(&self, handle: OutputHandle, is_reattaching: bool, partial_unsettled: usize) -> (r: AttachS)
-        ensures r.k@ == kof(*self, is_reattaching, partial_unsettled), r.incomplete == (partial_unsettled > 1), r.of@ == self.id@,
-    { unimplemented!() }
+//@@ fn file=fe2o3-amqp/src/link/mod.rs impl=`~impl<R,T,F,M>Link<R,T,F,M>where` name=as_attach_inner id=Link::as_attach_inner
+//@@ ret Attach
+//@@ subst `self.flow_state.as_ref()` => `self.flow_state` rule=R8
+//@@ subst `handle.into()` => `handle_into(handle)` rule=R16
+//@@ subst `R::into_role()` => `self.role_s()` rule=R7
+//@@ subst `.map(Box::new)` => `` rule=optional-R8
+//@@ subst `self.target.clone().map(Into::into)` => `self.target.clone().map(|t: TargetS| -> (o: TargetArchetypeS) ensures o == archetype_of(t) { target_into(t) })` rule=R8,R17
+//@@ subst `self.offered_capabilities.clone().map(Into::into)` => `self.offered_capabilities.clone().map(|c: CapsS| -> (o: CapsOut) ensures o == caps_of(c) { caps_into(c) })` rule=R17
+//@@ subst `self.desired_capabilities.clone().map(Into::into)` => `self.desired_capabilities.clone().map(|c: CapsS| -> (o: CapsOut) ensures o == caps_of(c) { caps_into(c) })` rule=R17
+//@@ spec
+    ensures
+        ({
+            let u = r.unsettled;
+            &&& r == attach_spec(*self, handle, u, partial_unsettled > 1)       // [C13.attach.fields-from-the-links-own-state] [C11.attach.fields-from-the-links-own-state] [C08.attach.fields-from-the-links-own-state] [C02.attach.fields-from-the-links-own-state] the attach a link sends carries ITS name, the handle it was given, its role, the settle modes and terminus it was configured with, the initial delivery-count and properties its flow state holds NOW, max-message-size absent when unlimited -- and is marked incomplete-unsettled exactly when it was asked to list only part of the unsettled map
+            &&& k_of(r) == kof(*self, is_reattaching, partial_unsettled)
+            &&& kof(*self, is_reattaching, partial_unsettled) > 0 ==> u == unsettled_spec(*self, is_reattaching, partial_unsettled)       // [C02.resume.unsettled-listed-with-their-states]
+            &&& kof(*self, is_reattaching, partial_unsettled) == 0 ==> (u is None || u->Some_0.entries@.len() == 0)
+        }),
+//@@ end
 
 //@@ fn file=fe2o3-amqp/src/link/mod.rs impl=`~impl<R,T,F,M>Link<R,T,F,M>where` name=as_complete_attach id=Link::as_complete_attach
 //@@ ret AttachS
 //@@ spec
-    ensures !r.incomplete, r.k@ == kof(*self, is_reattaching, 1),       // [C02.resume.complete-attach-lists-everything] the attach that is not marked incomplete lists every unsettled delivery of the link
+    ensures !r.incomplete_unsettled, k_of(r) == kof(*self, is_reattaching, 1), r == attach_spec(*self, handle, r.unsettled, false),       // [C02.resume.complete-attach-lists-everything] the attach that is not marked incomplete lists every unsettled delivery of the link
 //@@ end
 
 //@@ fn file=fe2o3-amqp/src/link/mod.rs impl=`~impl<R,T,F,M>Link<R,T,F,M>where` name=as_maybe_incomplete_attach id=Link::as_maybe_incomplete_attach
@@ -113,26 +173,29 @@ impl Link {
 //@@ subst `let mut serializer = Serializer::from((&mut buf).writer()); attach .serialize(&mut serializer) .map_err(|_v1| SendAttachErrorKind::IllegalState)?;` => `serialize_attach(self, &attach, &mut buf).map_err(|_v1: SerErr| -> (o: SendAttachErrorKind) { SendAttachErrorKind::IllegalState })?;` rule=R9
 //@@ loop 0
             invariant
-                denominator >= 1, buf.n@ == asz(*self, kof(*self, is_reattaching, denominator), denominator > 1),
-                attach.k@ == kof(*self, is_reattaching, denominator), attach.incomplete == (denominator > 1), attach.of@ == self.id@,
-                kof(*self, is_reattaching, denominator) > 0 || denominator == 1 || buf.n@ <= max_frame_size,
-                forall|inc: bool| asz(*self, 0, inc) <= max_frame_size, total_of(*self) < 0x4000_0000_0000_0000,
+                denominator >= 1, buf.n@ == asz(attach),
+                k_of(attach) == kof(*self, is_reattaching, denominator), attach == attach_spec(*self, handle, attach.unsettled, denominator > 1),
+                fits_when_empty(*self, handle, max_frame_size), total_of(*self) < 0x4000_0000_0000_0000,
             decreases (if kof(*self, is_reattaching, denominator) == 0 && denominator > 1 { 0int } else { 2 * total_of(*self) + 2 - denominator }),       // [C15.attach.sizing-terminates] the loop that halves the listed part of the unsettled map ends: every round lists fewer entries, and an attach that lists none fits
 //@@ loopstart 0
             proof {
                 // the body is entered only while the attach does not fit, i.e. while it still lists at least one entry (or nothing has been cut yet)
-                if kof(*self, is_reattaching, denominator) == 0 { assert(asz(*self, 0, denominator > 1) <= max_frame_size); }
+                if kof(*self, is_reattaching, denominator) == 0 { assert(asz(attach_spec(*self, handle, attach.unsettled, denominator > 1)) <= max_frame_size); }
                 assert(kof(*self, is_reattaching, denominator) > 0);
                 lemma_kof(*self, is_reattaching, denominator);
             }
 //@@ spec
     requires
-        forall|inc: bool| asz(*self, 0, inc) <= max_frame_size,       // ASSUMED: the attach without unsettled entries fits the frame
+        fits_when_empty(*self, handle, max_frame_size),       // ASSUMED: the attach without unsettled entries fits the frame
         total_of(*self) < 0x4000_0000_0000_0000,       // ASSUMED: fewer than 2^62 unsettled deliveries
     ensures
-        r is Ok ==> asz(*self, r->Ok_0.k@, r->Ok_0.incomplete) <= max_frame_size,       // [C06.attach.resuming-attach-fits-the-frame] the attach that is sent fits the frame size it was cut down for
-        r is Ok ==> exists|d: usize| d >= 1 && r->Ok_0.k@ == kof(*self, is_reattaching, d) && r->Ok_0.incomplete == (d > 1),       // [C02.resume.incomplete-flag-iff-cut] it is marked incomplete-unsettled exactly when entries were left out
+        r is Ok ==> asz(r->Ok_0) <= max_frame_size,       // [C06.attach.resuming-attach-fits-the-frame] the attach that is sent fits the frame size it was cut down for
+        r is Ok ==> exists|d: usize| d >= 1 && k_of(r->Ok_0) == kof(*self, is_reattaching, d) && r->Ok_0 == attach_spec(*self, handle, r->Ok_0.unsettled, d > 1),       // [C02.resume.incomplete-flag-iff-cut] it is marked incomplete-unsettled exactly when entries were left out
 //@@ end
+}
+/// every attach of this link that lists no unsettled delivery fits
+pub open spec fn fits_when_empty(l: Link, h: OutputHandle, max: usize) -> bool {
+    forall|u: Option<OutMap>, inc: bool| (u is None || u->Some_0.entries@.len() == 0) ==> asz(#[trigger] attach_spec(l, h, u, inc)) <= max
 }
 pub open spec fn total_of(l: Link) -> int { if l.unsettled is None { 0 } else { l.unsettled->Some_0@.len() as int } }
 /// while at least one entry is listed the divisor does not exceed the number of entries
